@@ -516,4 +516,14 @@ private:
     AnalyserModelImpl *mPimpl; /**< Private member to implementation pointer, @private. */
 };
 
+#ifdef HSORBY_LIBCELLML_VERIF
+/**
+ * Verification hook (compiled only with -DHSORBY_LIBCELLML_VERIF): callback invoked by
+ * AnalyserModel::areEquivalentVariables() with the two variable addresses it was given, the bytes of the
+ * cache key it computed for them, whether the cache was hit and the result it is about to return.
+ */
+using VerifEquivalenceCacheTrace = void (*)(const void *variable1, const void *variable2, const void *key, size_t keySize, bool hit, bool result);
+LIBCELLML_EXPORT void verifSetEquivalenceCacheTrace(VerifEquivalenceCacheTrace callback);
+#endif
+
 } // namespace libcellml
